@@ -81,18 +81,19 @@ type GhostDef struct {
 }
 
 type Specs struct {
-	Defs       map[string]*GhostDef
-	Contracts  map[string]*Contract
-	Ghosts     map[string]*GhostFunc
-	GhostVars  map[string]string // name -> sort
-	GhostByRef map[string]bool
-	Axioms     []*Axiom
-	Lemmas     []*Lemma
-	Files      []string
+	Defs           map[string]*GhostDef
+	Contracts      map[string]*Contract
+	Ghosts         map[string]*GhostFunc
+	GhostVars      map[string]string // name -> sort
+	GhostByRef     map[string]bool
+	GhostUntracked map[string]bool
+	Axioms         []*Axiom
+	Lemmas         []*Lemma
+	Files          []string
 }
 
 func newSpecs() *Specs {
-	return &Specs{Contracts: map[string]*Contract{}, Ghosts: map[string]*GhostFunc{}, GhostVars: map[string]string{}, GhostByRef: map[string]bool{}, Defs: map[string]*GhostDef{}}
+	return &Specs{Contracts: map[string]*Contract{}, Ghosts: map[string]*GhostFunc{}, GhostVars: map[string]string{}, GhostByRef: map[string]bool{}, GhostUntracked: map[string]bool{}, Defs: map[string]*GhostDef{}}
 }
 
 var tagRe = regexp.MustCompile(`^([a-z]+)(\[[A-Za-z0-9_,\-]+\])?$`)
@@ -254,6 +255,11 @@ func (S *Specs) loadFile(path, pkg string, goFile bool) error {
 			cur, curLemma, last, lastAxiom, lastDef = nil, nil, nil, nil, nil
 			if len(words) >= 3 && words[1] == "var" {
 				ws := words[3:]
+				if len(ws) > 0 && ws[len(ws)-1] == "untracked" {
+					// changes need not be declared under modifies; meaningful only right after the call that sets it
+					S.GhostUntracked[words[2]] = true
+					ws = ws[:len(ws)-1]
+				}
 				if len(ws) > 0 && ws[len(ws)-1] == "byref" {
 					// indexed by object reference: entries of objects allocated during a call are invisible to its caller
 					S.GhostByRef[words[2]] = true
